@@ -2,3 +2,4 @@ pub mod range;
 pub mod de;
 pub mod xlsx_sheet;
 pub mod xlsx_strings;
+pub mod shared_formula;
